@@ -20,12 +20,12 @@ i=0
 while [ $i -lt $WORKERS ]; do
     VCHECK_FUZZ_PROP="$ID" VCHECK_FUZZ_STREAM="$STREAM" VCHECK_FUZZ_LOG="$ART/internal.log" \
       "$BIN" "$CORPUS" -runs=$PER -seed=$((SEED * 1000 + i + 1)) -len_control=0 -max_len=$MAXLEN \
-      -artifact_prefix="$ART/w$i-" -timeout=60 -rss_limit_mb=4096 -print_final_stats=1 >"$ART/worker$i.log" 2>&1 &
+      -artifact_prefix="$ART/w$i-" -timeout=600 -report_slow_units=120 -rss_limit_mb=4096 -print_final_stats=1 >"$ART/worker$i.log" 2>&1 &
     i=$((i + 1))
 done
 wait
 CRASHES=$(ls "$ART" 2>/dev/null | grep -c -E '^w[0-9]+-crash-' || true)
-SLOW=$(ls "$ART" 2>/dev/null | grep -c -E '^w[0-9]+-(timeout|oom|slow-unit)-' || true)
+SLOW=$(ls "$ART" 2>/dev/null | grep -c -E '^w[0-9]+-(timeout|oom)-' || true)
 DONE=$(grep -h -o "Done [0-9]* runs" "$ART"/worker*.log 2>/dev/null | awk '{s+=$2} END {print s+0}')
 NCORP=$(ls "$CORPUS" | wc -l)
 "$V/target/release/vcheck" fuzz-note "$ID" "$STREAM" "$DONE" "$WORKERS" "$NCORP" "$CRASHES" 2>/dev/null
